@@ -376,6 +376,9 @@ REF_NON_RETRYABLE = set({-32700, -32600, -32601, -32602, -32003, -32005, -32006,
 # ------------------------------------------------------------------ size dimension: long ids, long params, many distractors
 from symcheck.consts import size_cases, pick  # noqa: E402
 
+for _lim in (410, 1100, 70000):
+    size_cases(_lim)  # scanned at import time (a scan inside a traced path would be repeated per path)
+
 ID_SIZES = size_cases(70000)       # id lengths: every constant of the source tree +-1 (regenerated per run)
 COUNT_SIZES = size_cases(1100)     # number of distractors before the answer
 
